@@ -1,5 +1,6 @@
 """C10 — BGP announcement eligibility (Model/BgpAds.v, bgp_decide)."""
 import json
+import vlib
 
 CLOSURE = ["Model/BgpAds.v", "Proofs/BgpAdsElig.v"]
 SIGS_KNOWN = "bgp-local-duplicate-address-across-nodes"
@@ -36,7 +37,7 @@ def run(ctx):
         for k in ("announce", "reason:RNoLocal", "reason:RNoEndpoints", "reason:RExcluded", "reason:RNetUnavail",
                   "reason:RNotOwner", "conflicting_conditions_for_one_address", "multi_homed_address", "f18_hits", "route_checks"):
             if st.get(k, 0) == 0:
-                raise Exception("generator degenerate: counter %r is zero: %r" % (k, st))
+                raise vlib.Broken("generator degenerate: counter %r is zero: %r" % (k, st))
 
     def search():
         for k in range(3):
